@@ -158,7 +158,7 @@ theorem cfgc_connectionFailed (s : Sess) : Cfgc s s.connectionFailed := by
   split
   · exact (((cfgc_setRetry s none).trans (cfgc_closeConn _)).trans (cfgc_setSt _ _)).trans (cfgc_connectionClosed _ _)
   · exact (cfgc_setRetry s _).trans (cfgc_setSt _ _)
-  · exact (((cfgc_closeConn s).trans (cfgc_setRetry _ _)).trans (cfgc_setSt _ _)).trans (cfgc_connectionClosed _ _)
+  · exact ((((cfgc_closeConn s).trans (cfgc_setRetry _ _)).trans (cfgc_setHold _ _)).trans (cfgc_setSt _ _)).trans (cfgc_connectionClosed _ _)
   · exact cfgc_errorClose s
   · exact cfgc_errorClose s
   · exact Cfgc.refl s
